@@ -166,7 +166,8 @@ def run_ops(core, rng, tier, nops):
             elif op == "typeerr":
                 i = pick()
                 r = P.regs[i]
-                what = rng.choice(["step", "float", "str", "int_index", "ms_float", "sec_str", "sec_step"])
+                what = rng.choice(["step", "float", "str", "int_index", "ms_float", "sec_str", "sec_step", "zero_float_start", "empty_str_start",
+                                   "ms_zero_float_start", "empty_tuple_start", "stop_zero_float"])
                 try:
                     if what == "step":
                         r[0:2:1]
@@ -180,6 +181,16 @@ def run_ops(core, rng, tier, nops):
                         r.millis[0.5:10]
                     elif what == "sec_str":
                         r.seconds["0":1]
+                    elif what == "zero_float_start":
+                        r[0.0:2]            # a bound of the wrong type is an error whatever its value
+                    elif what == "empty_str_start":
+                        r.seconds["":1]
+                    elif what == "ms_zero_float_start":
+                        r.millis[0.0:10]
+                    elif what == "empty_tuple_start":
+                        r[():2]
+                    elif what == "stop_zero_float":
+                        r[0:0.0]
                     else:
                         r.seconds[0:1:1]
                     e["k"] = "no error"
@@ -214,6 +225,18 @@ def run_ops(core, rng, tier, nops):
                 r = P.regs[i]
                 k = rng.choice([1, 2, 3, len(r), len(r) + 1, len(r) + 5, rng.randint(1, len(r) + 2)])
                 pieces = r / k
+                if rng.random() < .5:
+                    # the caller owns the returned list: whatever it does with it must not influence a later division
+                    first = [proj(x) for x in pieces]
+                    try:
+                        pieces.reverse()
+                        pieces.pop()
+                    except Exception:
+                        pass
+                    twin = core.AudioRegion(bytes(r), *par_of(r))
+                    pieces = (twin if rng.random() < .5 else r) / k
+                    if [proj(x) for x in pieces] != first:
+                        e["k"] = "a second division differs from the first"
                 e.update(r=i + 1, n=k, pieces=[proj(x) for x in pieces])
                 if any(par_of(x) != par_of(r) for x in pieces):
                     e["k"] = "parameters changed"
@@ -239,8 +262,12 @@ def run_ops(core, rng, tier, nops):
                 if rng.random() < .3:
                     j = i
                 if rng.random() < .3:
-                    # an equal copy built independently
-                    cp = core.AudioRegion(bytes(P.regs[i]), *par_of(P.regs[i]))
+                    # an equal copy built independently, carrying another position on the time line: equality is about bytes and parameters only
+                    cp = core.AudioRegion(bytes(P.regs[i]), *par_of(P.regs[i]), rng.choice([None, 0.0, 1.5, 7.25]))
+                    if rng.random() < .5:
+                        me = core.AudioRegion(bytes(P.regs[i]), *par_of(P.regs[i]), rng.choice([0.5, 2.0]))
+                        e.update(r1=i + 1, r2=i + 1, v=bool(me == cp and not (me != cp) and cp == me and [me].count(cp) == 1))
+                        raise StopIteration
                     e.update(r1=i + 1, r2=i + 1, v=bool(P.regs[i] == cp and not (P.regs[i] != cp)))
                 else:
                     e.update(r1=i + 1, r2=j + 1, v=bool(P.regs[i] == P.regs[j]))
@@ -261,6 +288,8 @@ def run_ops(core, rng, tier, nops):
                     e["k"] = "accepted"
                 except AudioParameterError:
                     e["k"] = "AudioParameterError"
+        except StopIteration:
+            pass
         except AudioParameterError:
             e["k"] = "AudioParameterError"
         except Exception as exc:  # noqa
